@@ -436,6 +436,9 @@ def _eval_frameworks(case, real_optimize=False):
             "sizematch-active" if sizematch else "sizematch-idle", "anchor-missing" if anchor_missing else "anchor-present-or-none",
             f"n_videos={len(vids)}", f"uio={cfg['uio']}",
         )
+        fr_ = spec["frames"]
+        if any(a["video"] != b["video"] and a["frame_idx"] == b["frame_idx"] for a, b in zip(fr_, fr_[1:])):
+            res.cls("adjacent-frames:same-index-different-video")
         if has_empty:
             res.cls("has-empty-instance")
         if n_all_empty:
@@ -543,7 +546,7 @@ def strategy_frameworks(fixed_kind=None, fixed_scale_class=None):
         vkind, is_rgb = draw(st.sampled_from(_rot(VIDKINDS, rot)))
         max_stride, stride, paf_stride = draw(st.sampled_from(_rot(STRIDES, rot)))
         n_nodes = draw(st.integers(2, 4)) if kind == "bottomup" else draw(st.integers(1, 4))
-        nv = draw(st.sampled_from([1, 1, 2]))
+        nv = draw(st.sampled_from([1, 2]))
         videos = []
         for v in range(nv):
             vk = vkind if (v == 0 or draw(st.integers(0, 4)) > 0) else draw(st.sampled_from(["texture", "texture_rgb"]))
@@ -556,9 +559,17 @@ def strategy_frameworks(fixed_kind=None, fixed_scale_class=None):
         pair_class = kind == "single" and draw(st.integers(0, 3)) == 0  # user + predicted instance in one frame
         uio = True if pair_class else draw(st.booleans())
         frames, used = [], set()
-        for fi_ in range(draw(st.integers(1, 3))):
-            v = draw(st.integers(0, nv - 1))
-            fidx = draw(st.integers(0, 2))
+        # "mirrored": the same frame index labelled in both videos, listed one after the other (what label sets
+        # of several short clips look like: every clip has its frame 0 labelled)
+        mirrored = nv == 2 and draw(st.booleans())
+        slots = None
+        if mirrored:
+            k0 = draw(st.integers(0, 2))
+            first = draw(st.integers(0, 1))
+            slots = [(first, k0), (1 - first, k0)] + ([(draw(st.integers(0, 1)), (k0 + 1) % 3)] if draw(st.booleans()) else [])
+        for fi_ in range(len(slots) if slots else draw(st.integers(1, 3))):
+            v = slots[fi_][0] if slots else draw(st.integers(0, nv - 1))
+            fidx = slots[fi_][1] if slots else draw(st.integers(0, 2))
             if (v, fidx) in used:
                 continue
             used.add((v, fidx))
